@@ -1,5 +1,7 @@
 package main
 
+import "fmt"
+
 // Cluster-engine properties: which suites each tier explores.
 
 var untimedAssumptions = []string{
@@ -52,5 +54,21 @@ func init() {
 			p = []plan{{"deposed3-d4", 600}, {"read3-d4", 600}, {"deposed3-d3", 120}}
 		}
 		return clusterCheck(prop, tier, p, []string{"leader_present", "op_acked", "read_served"}, append([]string{"at most one outstanding read-only operation per node (map iteration order inside the read-only loop is not controlled)"}, untimedAssumptions...))
+	}
+	checks["C08"] = func(prop, tier string) int {
+		var p []plan
+		for i := 0; i < numHV; i++ {
+			if tier == "thorough" {
+				p = append(p, plan{"hvt-" + fmt.Sprint(i), 90})
+			} else {
+				p = append(p, plan{"hvq-" + fmt.Sprint(i), 10})
+			}
+		}
+		if tier == "thorough" {
+			p = append(p, plan{"split3-d4", 200}, plan{"crash3-d3", 300}, plan{"elect3-d3", 100}, plan{"crash2-d4", 150})
+		} else {
+			p = append(p, plan{"split3-d3", 20}, plan{"crash3-d2", 40}, plan{"elect3-d2", 15})
+		}
+		return clusterCheck(prop, tier, p, []string{"leader_present", "restarted_node_up"}, append([]string{"HANDLER suites hv*: one real node booted from preloaded storage, two puppet peers, every event sequence up to 4 (quick) / 5 (thorough) steps over RequestVote/AppendEntries/InstallSnapshot injections (terms T-1..T+1, both candidates, older/equal/newer logs, prevote or real, clock elapsed or not), own timeouts, every answer to its own requests, crash at quiescent points and armed at storage-call boundaries, restart"}, untimedAssumptions...))
 	}
 }
